@@ -97,13 +97,13 @@ pub struct St {
 
 impl PartialEq for St {
     fn eq(&self, o: &St) -> bool {
-        self.case == o.case && self.key == o.key && self.next == o.next && self.after_end == o.after_end && self.devs == o.devs && self.constructed == o.constructed
+        self.case == o.case && self.steps == o.steps && self.key == o.key && self.next == o.next && self.after_end == o.after_end && self.devs == o.devs && self.constructed == o.constructed
     }
 }
 impl Eq for St {}
 impl Hash for St {
     fn hash<H: Hasher>(&self, h: &mut H) {
-        (self.case, self.key, self.next, self.after_end, self.devs, self.constructed).hash(h)
+        (self.case, self.steps, self.key, self.next, self.after_end, self.devs, self.constructed).hash(h)
     }
 }
 
